@@ -93,6 +93,12 @@ func C10(o *world.Obs) *Result {
 			}
 			continue
 		}
+		// whatever failed underneath, a client that asked unconditionally gets a full response:
+		// a 304 is an answer to conditional fields, and this client sent none
+		if ex.Resp.Status == http.StatusNotModified && !HasClientConditional(ex.Req) && IsPlainGET(ex.Req) && !bytesMutated(o) {
+			r.Fail("C10", "unsolicited-304", ex.Idx, "the client sent no conditional fields but is handed a 304 (store faults: %s); %s", faultList(faultFired[ex.Idx]), SummarizeExchange(o, ex))
+			continue
+		}
 		// the origin's reply of this exchange: complete and correct
 		for _, c := range fg {
 			if c.Kind != "resp" {
@@ -155,4 +161,22 @@ func faultList(ops []*world.StoreOp) string {
 		parts = append(parts, op.Op+" "+op.Key+" -> "+op.Fault)
 	}
 	return strings.Join(parts, "; ")
+}
+
+// bytesMutated: some store operation of the scenario hands the cache bytes other than those it
+// wrote (they may decode to anything, a stored 304 included; no checksum exists).
+func bytesMutated(o *world.Obs) bool {
+	for _, f := range o.Sc.Faults {
+		switch f.Kind {
+		case "err", "notexist", "rlimit", "crash":
+		default:
+			return true
+		}
+	}
+	for _, st := range o.Sc.Steps {
+		if st.Op == "corrupt" {
+			return true
+		}
+	}
+	return false
 }
